@@ -36,7 +36,8 @@ Inductive stmt :=
 | Break | Continue | Return | Raise
 with handlers :=
 | HNil
-| HCons (pat : list nref) (hastg : bool) (tl te : nat) (hb : stmt) (rest : handlers).
+| HCons (hastg : bool) (tl te : nat) (hb : stmt) (rest : handlers).
+(* except-clause patterns are not modelled: they never contain tracked names in the checked programs *)
 
 Inductive lstat := LRef (l e : nat) | LAsg (l e : nat) | LDel (l e : nat).
 
@@ -269,8 +270,8 @@ Fixpoint visit (fx : bool) (s : stmt) (st : bst) {struct s} : bst :=
 with visit_h (fx : bool) (hs : handlers) (N E : nat) (st : bst) {struct hs} : nat * bst :=
   match hs with
   | HNil => (E, st)
-  | HCons pat hastg tl te hb rest =>
-      let st1 := refs pat (set_cur (Some E) st) in
+  | HCons hastg tl te hb rest =>
+      let st1 := set_cur (Some E) st in
       let E2 := nb st1 in
       let st4 := nextblock (add_edge_o (cur st1) E2 (newblock st1)) in
       let st5 := if hastg then v_asg tl te st4 else st4 in
@@ -349,7 +350,7 @@ Fixpoint wf (inl : bool) (s : stmt) : bool :=
 with wf_h (inl : bool) (hs : handlers) : bool :=
   match hs with
   | HNil => true
-  | HCons _ _ _ _ hb rest => wf inl hb && wf_h inl rest
+  | HCons _ _ _ hb rest => wf inl hb && wf_h inl rest
   end.
 
 (* complete run of the model on one function *)
